@@ -33,6 +33,12 @@ func init() {
 				Quick:    map[string]int{"maxsteps": 3, "maxevents": 1, "ticks": 0, "pin_first": 0, "pin_second": 6},
 				Thorough: map[string]int{"maxsteps": 3, "maxevents": 1, "ticks": 0, "pin_first": 0, "pin_second": 6},
 				Reach:    []string{"handler returned", "two subscriptions running"}, Functions: fns},
+			// a second connection_init while a subscription delivers an event: the acknowledgement and the event
+			// frame are written by different goroutines
+			{Name: "repeated-init-vs-listener", Pkg: ".", Files: files, Entry: "VerifTeardown", Mode: "all", Race: true,
+				Quick:    map[string]int{"maxsteps": 2, "kinds": 8, "maxevents": 1, "ticks": 0, "pin_first": 0, "pin_second": 7, "pin_upend": 3, "pin_events": 1, "exactsteps": 2},
+				Thorough: map[string]int{"maxsteps": 2, "kinds": 8, "maxevents": 1, "ticks": 0, "pin_first": 0, "pin_second": 7, "slim": 1},
+				Reach:    []string{"handler returned"}, Functions: fns},
 			{Name: "heartbeat-vs-listener", Pkg: ".", Files: files, Entry: "VerifTeardown", Mode: "all", Race: true,
 				Quick:    map[string]int{"maxsteps": 1, "maxevents": 1, "ticks": 1, "pin_client": 0, "pin_upend": 3, "pin_events": 1},
 				Thorough: map[string]int{"maxsteps": 1, "maxevents": 1, "ticks": 1, "pin_client": 0, "slim": 1, "stitched": 1, "budget_s": 10000},
